@@ -252,6 +252,28 @@ def rule_name(c, prog, R="C06.name"):
                 under_desc |= {id(y) for y in core.walk(n)}
     special = [n for n in core.walk_fn(fn) if n.get("k") == "Binary" and n.get("op") == "==" and "Name" in (core.lit_value(n["l"]), core.lit_value(n["r"])) and id(n) not in under_desc]
     special += [n for n in core.walk_fn(fn) if n.get("k") == "Match" and n.get("src") == "Normal" and id(n) not in under_desc and any(core.lit_value(a["pat"].get("e") or {}) == "Name" or (a["pat"].get("k") == "Lit" and (a["pat"].get("lit") or {}).get("v") == "Name") for a in n["arms"])]
+    # the writer's half: `Name` is written by a call of its own with the literal name, outside the loop that resolves
+    # every DOM key through the database — or that lookup resolves `Name` on every class
+    wfn = prog.fn("rbx_xml::serializer::serialize_instance")
+    in_loops = set()
+    for n in core.walk_fn(wfn):
+        if core.as_for(n) is not None and n.get("k") != "DropTemps":
+            in_loops |= {id(y) for y in core.walk(core.as_for(n)[2])}
+    direct = [n for n in core.walk_fn(wfn) if n.get("k") == "Call" and (core.callee(n) or "").endswith("types::write_value_xml") and len(n["args"]) >= 3 and core.lit_value(n["args"][2]) == "Name" and id(n) not in in_loops]
+    if direct:
+        c.ok(R, "xml-writer:Name-written-directly")
+    else:
+        xt_w = extract_sym(prog, prog.fn("rbx_xml::core::find_property_descriptors"))
+        d_w = dbm.Database()
+        lost_w = []
+        for ck in sorted(d_w.classes):
+            r = evaluate(xt_w, d_w, ck, "Name")
+            if not (isinstance(r, tuple) and isinstance(r[1], tuple)):
+                lost_w.append(ck)
+        if lost_w:
+            c.violation(R, "xml-writer|Name|" + ",".join(lost_w), f"rbx_xml writes `Name` through the reflection lookup like any property; for {len(lost_w)} database classes ({', '.join(lost_w)}) that lookup finds no serializing `Name`, so with the default options the element is not written at all and the instance comes back named after its class (ErrorOnUnknown refuses to write such an instance)", wfn.sp, instance="xml-writer:Name-written-directly")
+        else:
+            c.ok(R, "xml-writer:Name-written-directly")
     if special:
         c.ok(R, "xml-reader:Name-before-lookup")
         return
